@@ -199,12 +199,14 @@ impl<'a> G<'a> {
         let w: Vec<u32> = sizes.iter().map(|x| x.1).collect();
         let mut n = sizes[self.rng.weighted(&w)].0 as usize;
         let mut entry = self.rng.below(3) as u8;
-        if self.rng.chance(1, if self.cfg.thorough { 300 } else { 2500 }) {
+        let mut force_plain = false;
+        if self.rng.chance(1, if self.cfg.thorough { 200 } else { 700 }) {
             // more terms than any fixed-size block an implementation might work in (4096, 8192)
             n = if self.rng.coin() { 4100 } else { 8200 };
             if self.rng.coin() {
                 entry = 0;
             }
+            force_plain = self.rng.coin();
             bump(&mut self.c, "probe:msm_beyond_block_sizes");
         }
         let live = self.live(g);
@@ -296,7 +298,10 @@ impl<'a> G<'a> {
             }
         }
         bump(&mut self.c, &format!("probe:msm_n={}", n));
-        let (dst, it, d) = (self.dst(), self.it(), self.disp());
+        let (dst, mut it, d) = (self.dst(), self.it(), self.disp());
+        if force_plain {
+            it = 3;
+        }
         { let st__ = Step::Msm { g, dst, entry, ss, hs, it, d }; self.emit(st__); }
     }
 
@@ -400,6 +405,11 @@ impl<'a> G<'a> {
     }
 
     fn group_op(&mut self, g: u8) {
+        if self.rng.chance(1, 40) {
+            let (a, b) = (self.scalar(true), if self.rng.chance(1, 6) { Sc { b: B(vec![0u8; 32]), k: 1 } } else { self.scalar(true) });
+            { let st__ = Step::SArith { a, b }; self.emit(st__); }
+            return;
+        }
         let dst = self.dst();
         let a = match self.pick(g) {
             Some(a) => a,
